@@ -959,6 +959,18 @@ pub struct StreamPlan {
     pub resp: MsgPlan,
     pub backend_read: ReadPlan,
     pub client_read: ReadPlan,
+    /// HTTP/2 backends: the response starts as soon as the request HEADERS are in (full duplex on one stream); its
+    /// last byte waits for the end of the request
+    #[serde(default)]
+    pub early_resp: bool,
+}
+
+/// An HTTP/2 peer stops READING its socket for `ms` once `after_bytes` of DATA arrived on the connection, and keeps
+/// sending meanwhile: with bodies far larger than the socket buffers sozu's write towards it blocks inside a frame.
+#[derive(Clone, Debug, serde::Serialize, serde::Deserialize)]
+pub struct Hold {
+    pub after_bytes: u64,
+    pub ms: u64,
 }
 
 #[derive(Clone, Debug, serde::Serialize, serde::Deserialize)]
@@ -972,6 +984,14 @@ pub struct RunPlan {
     #[serde(default)]
     pub second_wave: bool,
     pub streams: Vec<StreamPlan>,
+    /// full-duplex schedules (see Hold): on the client connection / on the h2c backend connection
+    #[serde(default)]
+    pub client_hold: Option<Hold>,
+    #[serde(default)]
+    pub backend_hold: Option<Hold>,
+    /// HTTP/2 peers: PING after this many body bytes moved (0: the rig decides)
+    #[serde(default)]
+    pub ping_every: u64,
 }
 
 pub fn msg_json(m: &MsgPlan) -> Value {
